@@ -14,6 +14,12 @@
 (*           CloseCancel, CloseSock                                        *)
 (*   node:   SrvRecv, SrvAnswer (any order), SrvSilent, SrvClose,          *)
 (*           SrvUnsolicited                                                *)
+(*   heartBeat (conn.go:626): HBTick (timer), its OPTIONS request run by   *)
+(*           the same exec actions as any caller's, HBEval (the answer     *)
+(*           judged), HBGiveUp (too many failures / unknown answer: this   *)
+(*           thread runs closeWithError), HBExit (connection context done) *)
+(*   handleTimeout (conn.go:798): with TimeoutLimit > 0 the caller whose   *)
+(*           timer fires past the limit runs closeWithError itself         *)
 (* Properties: C01 (NoMisroute, NoReuseWhileOutstanding) and C06           *)
 (* (OutcomeOnce, ReleaseOnce, NoLeak, Conservation, RequestEnds,           *)
 (* CloseReturns, no deadlock).                                             *)
@@ -31,11 +37,14 @@ CONSTANTS Req,            \* request identifiers (callers)
           AllowExtClose,  \* Conn.Close() may be called from outside
           MaxUnsolicited, \* frames the node sends on streams nobody asked on
           MaxAnswers,     \* responses the node sends per request (1; 2 = duplicate answer)
+          HBReq,          \* request identifiers the heartbeat uses (subset of Req; {} = no heartbeat)
+          HBMaxFail,      \* consecutive heartbeat failures tolerated (5 in the code)
+          TimeoutLimit,   \* the package variable TimeoutLimit (0 = timeouts never close the connection)
           Mut             \* "none", or the name of a deliberately wrong variant (self-test of the properties)
 
 None == "none"
 NoSid == 0          \* "no stream id" (Sid is a set of positive integers)
-Closers == Req \cup {"rcv", "ext"}
+Closers == Req \cup {"rcv", "ext", "hb"}
 
 VARIABLES
   inuse,      \* stream ids marked in use in the allocator
@@ -63,11 +72,15 @@ VARIABLES
   cerr,       \* per closer thread: closing with an error?
   cq,         \* per closer thread: calls still to be notified
   connCtxDone,\* c.ctx cancelled
-  sockClosed  \* c.conn closed
+  sockClosed, \* c.conn closed
+  hbpc,       \* heartbeat: "off" | "sleep" | "exec" | "giveup" | "closing" | "stopped"
+  hbfail,     \* heartbeat: consecutive failures
+  hbreq       \* heartbeat: the request it is running (None between beats)
 
 vars == <<inuse, calls, closed, pc, sid, toClosed, resp, out, written, released, consumed,
           c2s, pending, answers, s2c, unsol, srvClosed, rpc, rhead, rcall, rerr,
-          cpc, cerr, cq, connCtxDone, sockClosed>>
+          cpc, cerr, cq, connCtxDone, sockClosed, hbpc, hbfail, hbreq>>
+hbvars == <<hbpc, hbfail, hbreq>>
 
 NoOut == [kind |-> None, origin |-> None]
 O(k) == [kind |-> k, origin |-> None]
@@ -85,6 +98,7 @@ Init ==
   /\ cpc = [t \in Closers |-> "none"] /\ cerr = [t \in Closers |-> FALSE]
   /\ cq = [t \in Closers |-> {}]
   /\ connCtxDone = FALSE /\ sockClosed = FALSE
+  /\ hbpc = (IF HBReq = {} THEN "off" ELSE "sleep") /\ hbfail = 0 /\ hbreq = None
 
 -----------------------------------------------------------------------------
 (* exec *)
@@ -95,8 +109,9 @@ Finish(r, o) == /\ out' = [out EXCEPT ![r] = o]
 \* conn.go:1030-1032: the caller's context is checked first
 Start(r) ==
   /\ pc[r] = "idle"
+  /\ (r \in HBReq => hbpc = "exec" /\ hbreq = r)     \* the heartbeat's requests start when it says so
   /\ \/ /\ pc' = [pc EXCEPT ![r] = "alloc"] /\ UNCHANGED out
-     \/ /\ AllowCancel /\ Finish(r, O("ctx"))
+     \/ /\ AllowCancel /\ r \notin HBReq /\ Finish(r, O("ctx"))      \* (context.Background() never ends)
   /\ UNCHANGED <<inuse, calls, closed, sid, toClosed, resp, written, released, consumed, c2s, pending,
                  answers, s2c, unsol, srvClosed, rpc, rhead, rcall, rerr, cpc, cerr, cq, connCtxDone, sockClosed>>
 
@@ -170,7 +185,7 @@ WriteOk(r) ==
 
 \* conn.go:1094-1105: context ended before the write began (n = 0)
 WriteNotStarted(r) ==
-  /\ pc[r] = "write" /\ AllowCancel
+  /\ pc[r] = "write" /\ AllowCancel /\ r \notin HBReq
   /\ toClosed' = [toClosed EXCEPT ![r] = TRUE]
   /\ resp' = [resp EXCEPT ![r] = O("ctx")]
   /\ pc' = [pc EXCEPT ![r] = "undo_del"]
@@ -199,17 +214,27 @@ WriteFailReturn(r) ==
                  answers, s2c, unsol, srvClosed, rpc, rhead, rcall, rerr, cpc, cerr, cq, connCtxDone, sockClosed>>
 
 \* conn.go:1166-1175: the three give-up arms of the wait; each closes call.timeout, none releases
+\* timeouts counted so far on this connection (c.timeouts; only counted when TimeoutLimit > 0)
+TimedOut == {x \in Req : out[x].kind = "timeout" \/ (pc[x] = "closing" /\ resp[x].kind = "timeout")}
 GiveUp(r, why) ==
   /\ pc[r] = "wait"
   /\ \/ why = "timeout" /\ HasTimer
-     \/ why = "ctx" /\ AllowCancel
+     \/ why = "ctx" /\ AllowCancel /\ r \notin HBReq
      \/ why = "closed" /\ connCtxDone
   /\ toClosed' = IF Mut = "giveup_keeps_timeout_open" /\ why = "ctx" THEN toClosed
                  ELSE [toClosed EXCEPT ![r] = TRUE]
-  /\ Finish(r, O(why))
+  /\ IF why = "timeout" /\ TimeoutLimit > 0 /\ Cardinality(TimedOut) + 1 > TimeoutLimit
+        /\ Mut # "timeout_limit_ignored"
+     THEN \* conn.go:798 handleTimeout: this caller runs closeWithError(ErrTooManyTimeouts), then returns
+          /\ resp' = [resp EXCEPT ![r] = O("timeout")]
+          /\ pc' = [pc EXCEPT ![r] = "closing"]
+          /\ cpc' = [cpc EXCEPT ![r] = "begin"]
+          /\ cerr' = [cerr EXCEPT ![r] = TRUE]
+          /\ UNCHANGED out
+     ELSE Finish(r, O(why)) /\ UNCHANGED <<resp, cpc, cerr>>
   /\ IF Mut = "release_on_giveup" THEN Release(r) ELSE UNCHANGED <<inuse, released>>
-  /\ UNCHANGED <<calls, closed, sid, resp, written, consumed, c2s, pending,
-                 answers, s2c, unsol, srvClosed, rpc, rhead, rcall, rerr, cpc, cerr, cq, connCtxDone, sockClosed>>
+  /\ UNCHANGED <<calls, closed, sid, written, consumed, c2s, pending,
+                 answers, s2c, unsol, srvClosed, rpc, rhead, rcall, rerr, cq, connCtxDone, sockClosed>>
 
 \* conn.go:1141-1165 after the rendezvous: release (or not) and return
 PostResp(r) ==
@@ -396,6 +421,57 @@ SrvClose ==
                  answers, s2c, unsol, rpc, rhead, rcall, rerr, cpc, cerr, cq, connCtxDone, sockClosed>>
 
 -----------------------------------------------------------------------------
+(* heartBeat (conn.go:626-675).  Its OPTIONS request is an ordinary request: the exec      *)
+(* actions above run it; these actions are the loop around it.                             *)
+
+nonhb == <<inuse, calls, closed, pc, sid, toClosed, resp, out, written, released, consumed, c2s, pending,
+           answers, s2c, unsol, srvClosed, rpc, rhead, rcall, rerr, cq, connCtxDone, sockClosed>>
+
+\* the timer fired: the next request starts
+HBTick(r) ==
+  /\ hbpc = "sleep" /\ r \in HBReq /\ pc[r] = "idle"
+  /\ hbpc' = "exec" /\ hbreq' = r
+  /\ UNCHANGED <<nonhb, cpc, cerr, hbfail>>
+
+\* ctx.Done() in the select
+HBExit ==
+  /\ hbpc = "sleep" /\ connCtxDone /\ Mut # "hb_ignores_close"
+  /\ hbpc' = "stopped"
+  /\ UNCHANGED <<nonhb, cpc, cerr, hbfail, hbreq>>
+
+\* exec returned: judge the outcome. kind: what the answer turned out to be (the node's choice)
+HBEval(kind) ==
+  /\ hbpc = "exec" /\ hbreq # None /\ pc[hbreq] = "done"
+  /\ LET ok == out[hbreq].kind = "resp"
+         f == CASE ~ok -> hbfail + 1
+                [] kind = "supported" -> 0
+                [] kind = "errframe" -> hbfail
+                [] kind = "parsefail" -> hbfail + 1
+                [] OTHER -> hbfail
+     IN /\ kind \in {"supported", "errframe", "parsefail", "unknown"}
+        /\ (~ok => kind = "supported")              \* (kind is irrelevant then: one transition only)
+        /\ hbfail' = f
+        /\ hbpc' = IF (ok /\ kind = "unknown") \/ f > HBMaxFail THEN "giveup" ELSE "sleep"
+  /\ hbreq' = None
+  /\ UNCHANGED <<nonhb, cpc, cerr>>
+
+\* failures > 5, or an answer that is neither SUPPORTED nor ERROR: this thread closes the connection
+HBGiveUp ==
+  /\ hbpc = "giveup"
+  /\ hbpc' = "closing"
+  /\ BecomeCloser("hb", TRUE)
+  /\ UNCHANGED <<nonhb, hbfail, hbreq>>
+
+HBClosed ==
+  /\ hbpc = "closing" /\ cpc["hb"] = "done"
+  /\ hbpc' = "stopped"
+  /\ UNCHANGED <<nonhb, cpc, cerr, hbfail, hbreq>>
+
+HBStep == \/ \E r \in HBReq : HBTick(r)
+          \/ HBExit \/ HBGiveUp \/ HBClosed
+          \/ \E k \in {"supported", "errframe", "parsefail", "unknown"} : HBEval(k)
+
+-----------------------------------------------------------------------------
 DriverStep ==
   \/ \E r \in Req : \/ Start(r) \/ NoStreams(r) \/ AddCall(r) \/ BuildOk(r) \/ BuildFail(r)
                     \/ UndoDel(r) \/ UndoRel(r) \/ WriteOk(r) \/ WriteNotStarted(r)
@@ -412,9 +488,9 @@ EnvStep ==
   \/ \E p \in pending : SrvAnswer(p) \/ SrvSilent(p)
   \/ \E s \in Sid : SrvUnsolicited(s)
 
-AllDone == \A r \in Req : pc[r] = "done"
+AllDone == \A r \in Req : pc[r] = "done" \/ (r \in HBReq /\ pc[r] = "idle")
 Terminal == AllDone /\ UNCHANGED vars
-Next == DriverStep \/ EnvStep \/ Terminal
+Next == (DriverStep /\ UNCHANGED hbvars) \/ (EnvStep /\ UNCHANGED hbvars) \/ HBStep \/ Terminal
 
 ReqProgress(r) ==
   \/ NoStreams(r) \/ AddCall(r) \/ BuildOk(r) \/ BuildFail(r) \/ UndoDel(r) \/ UndoRel(r)
@@ -428,9 +504,11 @@ RecvStep == \/ RecvHeader \/ RecvReadErr \/ RecvLookup \/ RecvBody("ok") \/ Recv
 
 \* every thread of the driver keeps taking steps while it can; the environment is obliged
 \* to nothing (it may stay silent for ever)
-Fairness == /\ \A r \in Req : WF_vars(ReqProgress(r))
-            /\ \A t \in Closers : WF_vars(CloserStep(t))
-            /\ WF_vars(RecvStep)
+Fairness == /\ \A r \in Req : WF_vars(ReqProgress(r) /\ UNCHANGED hbvars)
+            /\ \A r \in HBReq : WF_vars(Start(r) /\ UNCHANGED hbvars)   \* (callers may never call; the heartbeat does)
+            /\ \A t \in Closers : WF_vars(CloserStep(t) /\ UNCHANGED hbvars)
+            /\ WF_vars(RecvStep /\ UNCHANGED hbvars)
+            /\ WF_vars(HBStep)
 
 Spec == Init /\ [][Next]_vars /\ Fairness
 SpecSafety == Init /\ [][Next]_vars
@@ -484,9 +562,22 @@ NoLeak == \A r \in Req :
 
 TypeOK == /\ inuse \subseteq Sid
           /\ \A r \in Req : released[r] \in 0 .. 2
+          /\ hbpc \in {"off", "sleep", "exec", "giveup", "closing", "stopped"}
+          /\ hbfail \in 0 .. HBMaxFail + 1
+
+\* the heartbeat closes the connection only for the two documented reasons (conn.go:633, 668)
+HBCloseJustified == cpc["hb"] # "none" => hbpc \in {"closing", "stopped"}
+\* TimeoutLimit (conn.go:177): "how many timeouts we will allow to occur before the connection is closed":
+\* a caller closes the connection for timeouts only past the limit, and 0 disables it
+TimeoutCloseJustified == \A r \in Req :
+  (pc[r] = "closing" /\ resp[r].kind = "timeout") => (TimeoutLimit > 0 /\ Cardinality(TimedOut) > TimeoutLimit)
 
 \* C06 liveness
 RequestEnds == \A r \in Req : (pc[r] # "idle") ~> (pc[r] = "done")
 CloseReturns == \A t \in Closers : (cpc[t] = "begin") ~> (cpc[t] = "done")
 CloseUnblocks == closed ~> (\A r \in Req : pc[r] \in {"idle", "done"})
+\* the heartbeat goroutine ends once the connection is closed
+HBStops == connCtxDone ~> (hbpc \in {"off", "stopped"})
+\* past the limit the connection does get closed
+TimeoutLimitCloses == (TimeoutLimit > 0 /\ Cardinality(TimedOut) > TimeoutLimit) ~> closed
 =============================================================================
